@@ -6,6 +6,13 @@ Case kinds
             * "pretag": n on an un-aliased sub-query source  -> the sub-query OBJECT is first handed to another statement,
               which names it sq<n> (object reuse across statements); the Gallina form carries the alias "sq<n>"
             * "set_tbl": true on an UPDATE                     -> SET targets are fields bound to the update table
+            * "lookup": {"how": attr|field|item, "refine": as|limit|where, "use": bool} on an explicitly aliased sub-query
+              source (third element {"lookup": ..} of an aliased table source) -> the source object has a HISTORY: an
+              ancestor object (the table before as_(); the sub-query before limit()/where() and as_()) had the statement's
+              column names looked up on it (anc.col / anc.field("col") / anc["col"]), was ("use") a source of an earlier
+              statement, and only then the source was derived from it; the columns of the source are then looked up on
+              the source object the same way instead of Field(col, table=source).  The spec still describes the final
+              object, so the model and the oracle read it like any other source.
           every field bound to a source has a sentinel column name zq<N>, unique per reference
   term  : an expression spec rendered under an explicit keyword context (all its fields carry sentinel names)
   exec  : a SQLLiteQuery statement over the fixed schema t/u/v(id,a,b,c); besides the text it is executed on an in-memory
@@ -13,8 +20,10 @@ Case kinds
 """
 import copy
 import json
+import random
 import re
 import sqlite3
+import zlib
 
 from harness import queries_family as qf
 from harness import terms_family as tf
@@ -64,12 +73,58 @@ SENT = re.compile(r"zq\d+")
 class _Build:
     """context manager: temporarily routes the family's recursive builders through this file's extensions"""
 
-    def __init__(self):
+    def __init__(self, spec=None):
         self.rec = {}
+        self.names = field_names(spec) if spec is not None else []
+        self.looked = {}      # id(source object) -> (object, how its columns are looked up: "attr" | "field" | "item")
 
     def __enter__(self):
-        self.o_bq, self.o_bs = qf.build_query, qf.build_source
-        rec, o_bq, o_bs = self.rec, self.o_bq, self.o_bs
+        self.o_bq, self.o_bs, self.o_tb = qf.build_query, qf.build_source, tf.build
+        rec, o_bq, o_bs, o_tb = self.rec, self.o_bq, self.o_bs, self.o_tb
+        names, looked = self.names, self.looked
+
+        def t_build(t, ops=False):
+            # a column of a looked-up source is obtained FROM THE SOURCE OBJECT (src.col / src.field("col") / src["col"])
+            if t[0] == "field" and t[2] is not None and isinstance(t[2][0], str) and t[2][0].startswith("#"):
+                ent = looked.get(id(tf.RESOLVER.get(int(t[2][0][1:]))))
+                if ent is not None:
+                    f = look_up(ent[0], t[1], ent[1])
+                    return f if t[3] is None else f.as_(t[3])
+            return o_tb(t, ops)
+
+        def build_looked_up(s, lk):
+            """the source has a history: its columns were looked up on an ANCESTOR object (the table before as_(), the
+            sub-query before a further builder call and as_()), the ancestor was (optionally) a source of an earlier
+            statement, and only then the source object was derived from it (a copy).  The spec describes the final object."""
+            from pypika import Query, Table
+            how, refine = lk["how"], lk["refine"]
+            if s[0] == "t":
+                anc = o_bs(["t", [s[1][0], s[1][1], None]])
+                alias, steps = s[1][2], []
+            else:
+                spec = s[1]
+                alias, steps, drop = spec["alias"], [], {"lookup", "alias"}
+                if refine == "limit" and spec.get("limit") is not None:
+                    drop.add("limit")
+                    steps.append(lambda o: o.limit(spec["limit"]))
+                elif (refine == "where" and spec["k"] == "sel" and spec.get("where") is not None
+                      and not spec.get("where_split") and not spec.get("where_first")):
+                    drop.add("where")
+                    steps.append(lambda o: qf._with_sources(list(o._from) + [j.item for j in o._joins],
+                                                            lambda: o.where(qf.build_item(spec["where"]))))
+                anc = qf.build_query({k: v for k, v in spec.items() if k not in drop})
+            early = [look_up(anc, n, how) for n in names]
+            if lk.get("use"):
+                pad = Table("pad")
+                str(Query.from_(pad).from_(anc).select(pad.x, *early[:3]).where(pad.x == look_up(anc, "id", how)))
+            obj = anc
+            for st in steps:
+                obj = st(obj)
+            obj = obj.as_(alias)
+            looked[id(obj)] = (obj, how)
+            if s[0] == "q":
+                rec[id(s[1])] = obj
+            return obj
 
         def base(s2):
             if s2.get("k") == "sel" and s2.get("where_first") and s2.get("where") is not None:
@@ -94,6 +149,9 @@ class _Build:
             return obj
 
         def build_source(s):
+            lk = (s[1].get("lookup") if s[0] == "q" else (s[2].get("lookup") if s[0] == "t" and len(s) > 2 and s[2] else None))
+            if lk:
+                return build_looked_up(s, lk)
             if s[0] == "q" and s[1].get("pretag") is not None:
                 from pypika import Query, Table
                 spec = s[1]
@@ -108,11 +166,56 @@ class _Build:
             if s[0] == "t" and len(s) > 2 and s[2] and s[2].get("for"):
                 return _temporal(o_bs(s), s[2]["for"])
             return o_bs(s)
-        qf.build_query, qf.build_source = build_query, build_source
+        qf.build_query, qf.build_source, tf.build = build_query, build_source, t_build
         return self
 
     def __exit__(self, *a):
-        qf.build_query, qf.build_source = self.o_bq, self.o_bs
+        qf.build_query, qf.build_source, tf.build = self.o_bq, self.o_bs, self.o_tb
+
+
+def look_up(obj, name, how):
+    """the column [name] of the source object, obtained from the object: obj.name / obj.field("name") / obj["name"]"""
+    if how == "attr" and not name.startswith("_") and not hasattr(type(obj), name) and name not in vars(obj):
+        return getattr(obj, name)
+    if how == "item":
+        return obj[name]
+    return obj.field(name)
+
+
+def field_names(x, out=None):
+    """every column name of a field node anywhere in a spec, in order of appearance"""
+    out = [] if out is None else out
+    if isinstance(x, dict):
+        for v in x.values():
+            field_names(v, out)
+    elif isinstance(x, list):
+        if len(x) == 4 and x[0] == "field" and isinstance(x[1], str):
+            if x[1] not in out:
+                out.append(x[1])
+        else:
+            for v in x:
+                field_names(v, out)
+    return out
+
+
+LOOK_HOW = ["attr", "field", "item"]
+LOOK_REFINE = ["as", "limit", "where"]
+
+
+def add_lookups(q, p=0.6):
+    """give a share of the explicitly aliased sub-query / table sources of a statement spec (in place) the look-up history
+    of [_Build.build_looked_up].  The choices come from a hash of the spec (the main random stream is left alone)."""
+    r = random.Random(zlib.crc32(json.dumps(q, sort_keys=True, default=str).encode()))
+    for s, _, _ in all_statements(q):
+        for src in own_sources(s):
+            lk = {"how": r.choice(LOOK_HOW), "refine": r.choice(LOOK_REFINE), "use": r.random() < 0.7}
+            if src[0] == "q" and src[1].get("alias") is not None and src[1].get("pretag") is None and src[1]["k"] in ("sel", "set"):
+                if r.random() < p:
+                    src[1]["lookup"] = lk
+            elif src[0] == "t" and len(src) == 2 and src[1][2] is not None and not src[1][0].startswith("#"):
+                if r.random() < p / 3:
+                    src.append({"lookup": lk})
+    return q
 
 
 def _temporal(tb, kind):
@@ -1036,11 +1139,12 @@ def gen_cases(rng, tier):
         g = CGen(rng, max_depth=rng.choice([1, 2, 2, 3]), p_subq=rng.choice([0.2, 0.35, 0.5]), p_alias=rng.choice([0.15, 0.35, 0.6]))
         q = g.any()
         sentinelise(q)
-        out.append({"kind": "stmt", "q": q})
+        out.append({"kind": "stmt", "q": add_lookups(q)})
     for i in range(n_term):
         out.append(gen_term_case(rng))
     for i in range(n_exec):
-        out.append({"kind": "exec", "q": XGen(rng, p_bad=rng.choice([0.0, 0.2, 0.4])).stmt()})
+        out.append({"kind": "exec", "q": add_lookups(XGen(rng, p_bad=rng.choice([0.0, 0.2, 0.4])).stmt())})
+    out += lookup_cases()
     for i in range(n_hist):
         out.append(gen_hist(rng))
     out += tclass_cases(rng, tier)
@@ -1055,6 +1159,42 @@ def gen_cases(rng, tier):
             q["joins"] = q.get("joins", []) + [["inner", ["t", ["v", [], "jv"]], ["on", ["t", ["basic", "eq", stray, ["field", "a", ["#0", [], None], None], None]]]]]
         sentinelise(q)
         out.append({"kind": "stmt", "q": q})
+    return out
+
+
+def lookup_cases():
+    """systematic product (every tier): source with a look-up history (aliased sub-query / aliased table) x way of looking
+    the columns up x refining call x ancestor used in an earlier statement x position (second FROM item / join) x
+    {stmt, SQLite}"""
+    out = []
+    T, U = ["t", [], None], ["u", [], None]
+    s0, s1 = ["#0", [], None], ["#1", [], None]
+    for cls, kind in (("Query", "stmt"), ("SQLLiteQuery", "exec")):
+        for shape in ("subquery", "table"):
+            for how in LOOK_HOW:
+                for refine in (LOOK_REFINE if shape == "subquery" else ["as"]):
+                    for use in (True, False):
+                        for pos in ("from", "join"):
+                            lk = {"lookup": {"how": how, "refine": refine, "use": use}}
+                            if shape == "subquery":
+                                sub = {"k": "sel", "cls": cls, "from": [["t", list(U)]], "alias": "recent",
+                                       "selects": [["t", _f("id", list(s0))], ["t", _f("b", list(s0))]],
+                                       "where": ["t", ["basic", "gt", _f("b", list(s0)), ["vali", 0, None], None]]}
+                                if kind == "stmt":
+                                    sub["limit"] = 7
+                                sub.update(lk)
+                                src = ["q", sub]
+                            else:
+                                src = ["t", ["u", [], "recent"], lk]
+                            on = ["t", ["basic", "eq", _f("id", list(s0)), _f("id", list(s1)), None]]
+                            q = {"k": "sel", "cls": cls, "selects": [["t", _f("a", list(s0))], ["t", _f("b", list(s1))]],
+                                 "orderby": [[["t", _f("id", list(s1))], None]]}
+                            if pos == "from":
+                                q.update({"from": [["t", list(T)], src], "where": on})
+                            else:
+                                q.update({"from": [["t", list(T)]], "joins": [["inner", src, ["on", on]]],
+                                          "where": ["t", ["basic", "gt", _f("b", list(s1)), ["vali", 1, None], None]]})
+                            out.append({"kind": kind, "q": q if kind == "exec" else sentinelise(q)})
     return out
 
 
@@ -1297,7 +1437,7 @@ def run_impl(case):
     spec = case["q"]
     out = {}
     try:
-        with _Build() as b:
+        with _Build(spec) as b:
             obj = qf.build_query(spec)
             rec = b.rec
         text = str(obj)
@@ -2232,6 +2372,10 @@ def histogram(cases):
                     inc("table" + ("+alias" if src[1][2] else "") + ("+schema%d" % len(src[1][1]) if src[1][1] else ""))
                 elif src[0] == "q":
                     inc("subquery-source" + ("+alias" if src[1].get("alias") else ("+pretag" if src[1].get("pretag") is not None else "")))
+                lk_ = src[1].get("lookup") if src[0] == "q" else (src[2].get("lookup") if src[0] == "t" and len(src) > 2 and src[2] else None)
+                if lk_:
+                    inc("looked-up-source:%s:%s/%s%s" % ("subquery" if src[0] == "q" else "table", lk_["how"], lk_["refine"],
+                                                          "/used-before" if lk_.get("use") else ""))
         for r in refs:
             inc("ref:" + r["clause"])
             inc("bind:" + r["bind"][0])
